@@ -32,7 +32,17 @@ RULE = ("four streams. fit: random sets of 1..4 state trajectories (lengths 1..1
         "Round 3: eig / ens / imp cases are also evaluated on the definitions regenerated from the source "
         "(gen_eigenspectrum incl. its solver choice, gen_ensemble[_obs], the calc_imp_times arguments of "
         "gen_implied_timescales); the directory written by MSM.save is compared with the translated file table. "
-        "non-trivial := fit: >= 2 states kept and >= 3 transitions counted; eig: >= 3 states; ens: >= 2 steps and "
+        "Round 3s: hist: ONE estimator object fitted 2..5 times while trim / lag_time / max_n_states / sliding_window / "
+        "method are changed through set_params or attribute assignment and the data change (same data, another number of "
+        "states, exactly as many states as the previous fit kept after trimming away a non-final state): after every "
+        "fit every attribute must equal the function pipeline on the settings and data then in force (last two fits also "
+        "against the Coq model). eig flavour nearsym: rare-event chains of 2..3 symmetric dyadic basins joined by crossings "
+        "a*2^-k1 / b*2^-k2 (a, b in {1,3}, k in 30..37, |k1-k2| >= 4) -- np.allclose(T, T.T) holds, T is not symmetric, the "
+        "per-state weights of neighbouring basins differ by a factor >= 16/3: stationarity and eigenpair residuals at 1e-13 / "
+        "1e-12 (measured on the unchanged code: <= 4e-15), values against LAPACK at 1e-12, first vector and eq_probs against "
+        "the stationary distribution solved in rationals (50 % per component; measured <= 1.3 %). bigeig: "
+        "the sparse decomposition repeated twice in the same process must be bit-identical. "
+        "non-trivial := hist: >= 2 successful fits with >= 2 states; fit: >= 2 states kept and >= 3 transitions counted; eig: >= 3 states; ens: >= 2 steps and "
         ">= 2 states; imp: >= 1 finite timescale")
 TRUSTED = ["translator/tr_msm.py (attribute stores of MSM.__init__, argument binding of the calls in fit and "
            "calc_imp_times against the callees' signatures, config dict, MSM(**config))",
@@ -53,6 +63,13 @@ ASSUMPTIONS = ["state ids >= 0, trajectories non-empty; stationarity of populati
                "checked numerically per case)",
                "round trip: all stored numbers finite (a model fitted to zero counts has nan populations) and populations "
                "present (a model fitted with calculate_eq_probs=False cannot be saved: np.savetxt(None) raises ValueError)",
+               "sparse >= 1000-state decompositions (ARPACK): the property demands real values in descending order, leading "
+               "value one and a stationary first vector - not that the non-leading values are 'the n_eigs largest'; agreement "
+               "with the dense decomposition is demanded as an extra except in one class where it does not hold on the "
+               "unchanged code and the property does not ask for it: every returned value is the real part of a genuine "
+               "eigenvalue, the leading value agrees, a complex pair sits at the cut and the skipped eigenvalues lie within "
+               "0.03 (real part) of the smallest returned one (tag arpack-crowded-cut-tolerated); all other clauses are "
+               "unconditional there",
                "implied_timescales with trim=True: if trimming leaves fewer than n_times+1 states at some lag times only, "
                "the rows have different lengths and np.array raises ValueError; such inputs are outside the clause"]
 EXHAUSTIVE = {"thorough": False}
@@ -259,14 +276,191 @@ def _gen_imp(rng):
             "sliding": rng.random() < 0.5, "trim": rng.random() < 0.5}
 
 
+# ---- round 3s: estimator histories, near-symmetric rare-event chains -------------------------------------------
+def _kept_states(c):
+    """original ids kept by the function pipeline for this configuration (None: rejected, or a weight tie)"""
+    trjs, lag = c["trjs"], c["lag"]
+    if lag < 1:
+        return None
+    mx = max(max(t) for t in trjs)
+    n = c["maxn"] if c["maxn"] is not None else mx + 1
+    if mx + 1 > n:
+        return None
+    M = _counts(trjs, lag, c["sliding"], n)
+    if not c["trim"]:
+        return list(range(n))
+    comps = _components(M)
+    w = [sum(sum(M[i]) for i in comp) for comp in comps]
+    best = [comp for comp, x in zip(comps, w) if x == max(w)]
+    return sorted(best[0]) if len(best) == 1 else None
+
+
+def _walks(rng, ns, ntr=None):
+    """1..3 trajectories over exactly the states 0..ns-1 (every state visited, the last one surely)"""
+    trjs = []
+    for _ in range(ntr or rng.randint(1, 3)):
+        L = rng.choice([4, 6, 8, 10, 12])
+        s = rng.randrange(ns)
+        t = []
+        for _ in range(L):
+            if rng.random() < 0.6:
+                s = rng.randrange(ns)
+            t.append(s)
+        trjs.append(t)
+    order = list(range(ns))
+    rng.shuffle(order)
+    trjs[0] = trjs[0] + order + order[:1]
+    return trjs
+
+
+def _gapped(rng):
+    """data in which ergodic trimming drops a state that is not the last one: a well-connected set plus states that
+    are only entered (or only left, or never seen)"""
+    ns = rng.randint(3, 6)
+    drop = sorted(rng.sample(range(ns - 1), rng.randint(1, min(2, ns - 2))))     # never the last state
+    keep = [i for i in range(ns) if i not in drop]
+    core_ = _walks(rng, len(keep), rng.randint(1, 2))
+    trjs = [[keep[x] for x in t] for t in core_]
+    for d in drop:
+        r = rng.random()
+        if r < 0.4:
+            trjs.append([d, d, rng.choice(keep)])          # only left
+        elif r < 0.8:
+            trjs[0] = trjs[0] + [d]                        # only entered, at the very end
+        # else: never seen (a gap in the numbering)
+    return trjs
+
+
+def _legal_method(c, rng):
+    """choose how the builder is given so that the configuration is inside the property's domain (as _gen_fit does)"""
+    cands = _final_candidates(c)
+    c["by"], c["eq"] = "fn", True
+    if cands is None:
+        return c
+    if c["builder"] == "mle" and not all(_sc_pos(M) and len(M) >= 2 for M in cands):
+        c["builder"] = rng.choice(["normalize", "transpose"])
+    if c["builder"] == "normalize" and not all(_sc_pos(M) for M in cands):
+        c["eq"] = False
+    if c["builder"] == "transpose" and not all(sum(map(sum, M)) > 0 for M in cands):
+        c["eq"] = False
+    return c
+
+
+def _gen_hist(rng, trap):
+    """one MSM object refitted 2..5 times while trim / lag_time / max_n_states / sliding_window / method are changed
+    through set_params or attribute assignment and the data change (other numbers of states)"""
+    first = {"trjs": _gapped(rng) if (trap or rng.random() < 0.5) else _walks(rng, rng.randint(2, 5)),
+             "lag": rng.choice([1, 1, 2, 3]), "trim": True if trap else rng.random() < 0.6,
+             "sliding": rng.random() < 0.5, "maxn": None, "builder": rng.choice(BUILDERS)}
+    steps = [_legal_method(first, rng)]
+    if rng.random() < 0.3:
+        first["by"] = "name" if first["eq"] else "fn"      # the constructor may be given the builder's name
+    for k in range(rng.randint(1, 4)):
+        prev = steps[-1]
+        st = {key: prev[key] for key in ("trjs", "lag", "trim", "sliding", "maxn", "builder")}
+        st["trjs"] = [list(t) for t in prev["trjs"]]
+        kept = _kept_states(prev)
+        what = rng.sample(["trim", "lag", "maxn", "sliding", "method", "data", "data"], rng.randint(1, 2))
+        if trap and k == 0:
+            what = ["trim", "data"]
+        if "trim" in what:
+            st["trim"] = not prev["trim"]
+        if "lag" in what:
+            st["lag"] = rng.choice([x for x in (1, 2, 3, 4) if x != prev["lag"]])
+        if "sliding" in what:
+            st["sliding"] = not prev["sliding"]
+        if "method" in what:
+            st["builder"] = rng.choice(BUILDERS)
+        if "data" in what:
+            r = rng.random()
+            if (trap and k == 0) or (r < 0.45 and kept):
+                st["trjs"] = _walks(rng, max(1, len(kept or [0, 1])))     # exactly as many states as were kept before
+                st["maxn"] = None
+            elif r < 0.75:
+                st["trjs"] = _gapped(rng)
+            else:
+                st["trjs"] = _walks(rng, rng.randint(1, 6))
+        mx = max(max(t) for t in st["trjs"])
+        if "maxn" in what:
+            st["maxn"] = rng.choice([None, mx + 1, mx + 2, mx + 3])
+        elif st["maxn"] is not None and st["maxn"] < mx + 1:
+            st["maxn"] = rng.choice([None, mx + 1]) if rng.random() < 0.85 else st["maxn"]   # (rarely: too small, rejected)
+        st = _legal_method(st, rng)
+        st["how"] = rng.choice(["set_params", "set_params", "setattr"])
+        st["reset_all"] = rng.random() < 0.2               # hand every parameter to set_params, changed or not
+        steps.append(st)
+    return {"kind": "hist", "steps": steps, "trap": bool(trap)}
+
+
+def _nearsym(rng):
+    """rare-event chain that passes np.allclose(T, T.T) without being symmetric: 2..3 basins, each a symmetric
+    (doubly stochastic, dyadic) block, joined by crossings a*2^-k1 one way and b*2^-k2 the other way, a, b in {1, 3},
+    k in 30..37, |k1 - k2| >= 4: the per-state weights of neighbouring basins differ by a factor >= 16/3 while every
+    asymmetry is below 1e-8"""
+    nb = rng.choice([2, 2, 3])
+    sizes = [rng.randint(1, 3) for _ in range(nb)]
+    n = sum(sizes)
+    T = [[Fraction(0)] * n for _ in range(n)]
+    off, blocks, units = 0, [], 32
+    for sz in sizes:
+        idx = list(range(off, off + sz))
+        blocks.append(idx)
+        off += sz
+        for i in idx:
+            T[i][i] = Fraction(units)
+        links = list(zip(idx, idx[1:])) + [tuple(rng.sample(idx, 2)) for _ in range(rng.randint(0, 2 * sz) if sz >= 2 else 0)]
+        for i, j in links:
+            w = rng.randint(1, 4)
+            if T[i][i] - w >= 8 and T[j][j] - w >= 8:
+                T[i][i] -= w; T[j][j] -= w; T[i][j] += w; T[j][i] += w
+        for i in idx:
+            for j in idx:
+                T[i][j] /= units
+    pairs = [(blocks[b], blocks[b + 1]) for b in range(nb - 1)]
+    for A, B in pairs:
+        i, j = rng.choice(A), rng.choice(B)
+        while True:
+            k1, k2 = rng.randint(30, 37), rng.randint(30, 37)
+            if abs(k1 - k2) >= 4:
+                break
+        e1, e2 = Fraction(rng.choice([1, 3]), 2 ** k1), Fraction(rng.choice([1, 3]), 2 ** k2)
+        T[i][j] += e1; T[i][i] -= e1
+        T[j][i] += e2; T[j][j] -= e2
+    return {"kind": "eig", "M": None, "Tq": [[str(x) for x in row] for row in T], "n_eigs": rng.choice([None, None, 2, 3]),
+            "sparse": rng.random() < 0.4, "flavour": "nearsym"}
+
+
+def _exact_stationary(T):
+    """the stationary distribution of an irreducible chain, solved in rationals"""
+    n = len(T)
+    A = [[T[j][i] - (1 if i == j else 0) for j in range(n)] for i in range(n)]
+    A[-1] = [Fraction(1)] * n
+    b = [Fraction(0)] * (n - 1) + [Fraction(1)]
+    for col in range(n):
+        p = next(r for r in range(col, n) if A[r][col] != 0)
+        A[col], A[p] = A[p], A[col]
+        b[col], b[p] = b[p], b[col]
+        for r in range(n):
+            if r != col and A[r][col] != 0:
+                f = A[r][col] / A[col][col]
+                A[r] = [x - f * y for x, y in zip(A[r], A[col])]
+                b[r] -= f * b[col]
+    return [b[i] / A[i][i] for i in range(n)]
+
+
 def generate(rng, tier):
     k = 1 if tier == "quick" else 8
     cases = [_gen_fit(rng) for _ in range(240 * k)]
     cases += [_gen_eig(rng) for _ in range(90 * k)]
     cases += [_gen_ens(rng) for _ in range(90 * k)]
     cases += [_gen_imp(rng) for _ in range(40 * k)]
+    cases += [_gen_hist(rng, i % 3 == 0) for i in range(60 * k)]
+    cases += [_nearsym(rng) for _ in range(30 * k)]
     # the sparse >= 1000-state branch of eigenspectrum (ARPACK): a fast-mixing chain crossed with a fast
     # two-state flip, so that a negative eigenvalue of large magnitude (-0.96) competes with the positive top
+    # a case of the tolerated class 'complex pair at the cut' (ARPACK returns 0.62997 (+-0.0915i) as 4th value, the
+    # 4th largest real part is 0.63189); everything the property states about this decomposition stays checked
+    cases.append({"kind": "bigeig", "m": 500, "seed": 382948, "n_eigs": 4, "fmt": "csr_matrix"})
     for _ in range(1 if tier == "quick" else 3):
         cases.append({"kind": "bigeig", "m": rng.choice([500, 520, 601]), "seed": rng.randrange(10 ** 6),
                       "n_eigs": rng.choice([3, 4, 5]), "fmt": rng.choice(["csr_matrix", "coo_matrix"])})
@@ -433,12 +627,64 @@ def _run_fit(c):
     return res
 
 
+def _run_hist(c):
+    from enspara.msm import MSM
+    from enspara.ra.ra import RaggedArray
+    steps = c["steps"]
+    s0 = steps[0]
+    m = MSM(lag_time=s0["lag"], method=_method(s0), trim=s0["trim"], sliding_window=s0["sliding"], max_n_states=s0["maxn"])
+    out = []
+    names = {"lag": "lag_time", "trim": "trim", "sliding": "sliding_window", "maxn": "max_n_states"}
+    for k, st in enumerate(steps):
+        rec = {}
+        if k > 0:
+            prev = steps[k - 1]
+            ch = {names[f]: st[f] for f in names if st[f] != prev[f] or st["reset_all"]}
+            if (st["builder"], st["eq"], st["by"]) != (prev["builder"], prev["eq"], prev["by"]) or st["reset_all"]:
+                ch["method"] = _method(st)
+            rec["changed"] = sorted(ch)
+            if st["how"] == "set_params":
+                m.set_params(**ch)
+            else:
+                for name, v in ch.items():
+                    setattr(m, name, v)
+        try:
+            m.fit(RaggedArray(st["trjs"]))
+            # (snapshot to plain Python values now: the next fit replaces / may reuse the attributes)
+            rec["est"] = _fit_fields(m.mapping_, m.tcounts_, m.tprobs_, m.eq_probs_)
+            rec["attrs"] = [int(m.lag_time), bool(m.trim), bool(m.sliding_window),
+                            None if m.max_n_states is None else int(m.max_n_states)]
+            if "err" not in rec["est"]:
+                rec["n_states"] = int(m.n_states_)
+        except Exception as ex:
+            rec["est"] = {"err": type(ex).__name__}
+        try:
+            rec["pipe"] = _pipeline(st)
+        except Exception as ex:
+            rec["pipe"] = {"err": type(ex).__name__}
+        if st["builder"] == "mle" and "err" not in rec["est"] and rec["est"]["pi"] is not None:
+            rec["mle_pi"] = rec["est"]["pi"]
+        out.append(rec)
+    return {"steps": out}
+
+
 def _run_eig(c):
     import scipy.linalg, scipy.sparse
     from enspara.msm.transition_matrices import eigenspectrum
-    M = np.array(c["M"], dtype=float)
-    T = M / M.sum(axis=1)[:, None]
+    if c.get("Tq") is not None:              # an exactly representable matrix given entry by entry
+        T = np.array([[float(Fraction(x)) for x in row] for row in c["Tq"]], dtype=float)
+    else:
+        M = np.array(c["M"], dtype=float)
+        T = M / M.sum(axis=1)[:, None]
     res = {"T": _ints(T)}
+    if c.get("flavour") == "nearsym":
+        from enspara.msm.transition_matrices import eq_probs
+        res["allclose_sym"] = bool(np.allclose(T, T.T) and not np.array_equal(T, T.T))
+        try:
+            e = eq_probs(scipy.sparse.csr_matrix(T) if c["sparse"] else T.copy())
+            res["eqp"] = [_fr(x) for x in np.asarray(e, dtype=float).ravel()]
+        except Exception as ex:
+            res["eqp"] = {"err": type(ex).__name__}
     w, V = scipy.linalg.eig(T.T)             # what eigenspectrum(left=True) hands to its post-processing
     res["raw_vals"] = [[_fr(z.real), _fr(z.imag)] for z in w]
     res["raw_vecs"] = [[[_fr(z.real), _fr(z.imag)] for z in V[:, k]] for k in range(V.shape[1])]
@@ -503,6 +749,7 @@ def _run_imp(c):
 
 
 def _run_bigeig(c):
+    import scipy.linalg
     import scipy.sparse as sp
     from enspara.msm.transition_matrices import eigenspectrum, eq_probs
     rs = np.random.RandomState(c["seed"])
@@ -518,14 +765,52 @@ def _run_bigeig(c):
     out = {}
     try:
         vs, vecs = eigenspectrum(getattr(sp, c["fmt"])(T), n_eigs=c["n_eigs"])
+        vs, vecs = np.array(vs, copy=True), np.array(vecs, copy=True)
         vd, vecd = eigenspectrum(T.toarray(), n_eigs=c["n_eigs"])
         pi = vecs[:, 0]
         out = {"vals": [float(x) for x in vs], "dense": [float(x) for x in vd],
                "resid": float(np.abs(pi @ T.toarray() - pi).max()), "sum": float(pi.sum()), "min": float(pi.min()),
                "eqp": float(np.abs(eq_probs(getattr(sp, c["fmt"])(T)) - vecd[:, 0]).max())}
+        # the same decomposition asked for again (and again, on a fresh container of the same matrix) in this process:
+        # a function of its arguments gives the same answer
+        rep = []
+        for arg in (getattr(sp, c["fmt"])(T), sp.csr_matrix(T.toarray())):
+            v2, w2 = eigenspectrum(arg, n_eigs=c["n_eigs"])
+            rep.append({"same": bool(np.array_equal(v2, vs) and np.array_equal(w2, vecs)),
+                        "dvals": float(np.abs(np.asarray(v2) - vs).max()), "dvecs": float(np.abs(np.asarray(w2) - vecs).max()),
+                        "flipped": [int(j) for j in range(vecs.shape[1])
+                                    if np.abs(w2[:, j] + vecs[:, j]).max() < np.abs(w2[:, j] - vecs[:, j]).max()]})
+        out["repeat"] = rep
+        # the top of the full spectrum (complex), to tell apart the ways in which sparse and dense values can differ
+        w = scipy.linalg.eigvals(T.toarray())
+        top = w[np.argsort(-w.real)][:c["n_eigs"] + 6]
+        out["spectrum"] = [[float(z.real), float(z.imag)] for z in top]
     except Exception as ex:
         out = {"err": type(ex).__name__, "msg": str(ex)[:200]}
     return out
+
+
+ARPACK_KEY = "eig-sparse-misses-crowded-eigenvalue"      # tolerated class (not demanded by the property), see ASSUMPTIONS
+
+
+def _sparse_dense_key(c, r):
+    """sparse and dense values differ.  One specific class is a known finding of the unchanged code (ARPACK, which="LR",
+    default Krylov space): every returned value is the real part of a genuine eigenvalue, the leading value agrees, and
+    the eigenvalues that were skipped lie within 0.03 (real part) of the smallest returned one, with a complex pair
+    among the eigenvalues crowding the cut (Arnoldi converges to the outermost eigenvalues of the bulk first: a pair
+    0.619 +- 0.147i is found before 0.634 +- 0.019i).  Anything else -- a value that is no eigenvalue, a wrong leading
+    value, eigenvalues skipped from farther away (which="LM"/"SR") -- is reported under eig-sparse-vs-dense."""
+    spec = r.get("spectrum")
+    if not spec:
+        return "eig-sparse-vs-dense"
+    v, dense, k = r["vals"], r["dense"], c["n_eigs"]
+    re_all = [z[0] for z in spec]
+    genuine = all(min(abs(x - y) for y in re_all) < 1e-7 for x in v)
+    skipped = [y for y in dense if min(abs(x - y) for x in v) > 1e-7]
+    crowded = bool(skipped) and all(abs(y - min(v)) < 3e-2 for y in skipped) and any(z[1] != 0 for z in spec[:k + 2])
+    if genuine and abs(v[0] - dense[0]) < 1e-7 and crowded:
+        return ARPACK_KEY
+    return "eig-sparse-vs-dense"
 
 
 def _oracle_bigeig(c, r):
@@ -537,12 +822,17 @@ def _oracle_bigeig(c, r):
         out.append(("eig-descending", "values %s" % v))
     if abs(v[0] - 1) > 1e-8:
         out.append(("eig-leading-one", "leading value %r" % v[0]))
-    if max(abs(a - b) for a, b in zip(v, r["dense"])) > 1e-7:
-        out.append(("eig-sparse-vs-dense", "sparse %s vs dense %s" % (v, r["dense"])))
+    if max(abs(a - b) for a, b in zip(v, r["dense"])) > 1e-7 and _sparse_dense_key(c, r) != ARPACK_KEY:
+        out.append(("eig-sparse-vs-dense", "sparse %s vs dense %s; top of the spectrum %s" % (v, r["dense"], r.get("spectrum"))))
     if r["resid"] > 1e-8 or abs(r["sum"] - 1) > 1e-8 or r["min"] < -1e-10:
         out.append(("eig-stationary", "first vector: |pi T - pi| = %.2e, sum %.8f, min %.2e" % (r["resid"], r["sum"], r["min"])))
     if r["eqp"] > 1e-8:
         out.append(("eig-stationary", "eq_probs(sparse) differs from the dense stationary vector by %.2e" % r["eqp"]))
+    for i, rep in enumerate(r.get("repeat", [])):
+        if not rep["same"]:
+            out.append(("eig-repeatable", "call %d of eigenspectrum on the same %d-state sparse matrix (n_eigs=%d) in one process "
+                        "differs from the first call: values by %.3e, vectors by %.3e, vectors with flipped sign %s" % (
+                            i + 2, 2 * c["m"], c["n_eigs"], rep["dvals"], rep["dvecs"], rep["flipped"])))
     return out
 
 
@@ -552,6 +842,8 @@ def run_impl(c):
         with np.errstate(all="ignore"):
             return _run_bigeig(c)
     with np.errstate(all="ignore"):
+        if k == "hist":
+            return _run_hist(c)
         if k == "fit":
             return _run_fit(c)
         if k == "eig":
@@ -670,6 +962,69 @@ def _oracle_eig(c, r):
             break
     if any(x < -Fraction(1, 10 ** 9) for x in v0):
         out.append(("eig-stationary", "stationary vector has a negative entry"))
+    if c.get("flavour") == "nearsym":
+        out += _oracle_nearsym(c, r, T, vals, vecs, k)
+    return out
+
+
+TIGHT = Fraction(1, 10 ** 13)        # unchanged code: residuals <= 1e-15 on these chains (measured), 100x margin
+PI_REL = Fraction(1, 2)              # unchanged code: <= 1.3e-2 on 3000 such chains (eps / spectral gap), 40x margin;
+                                     # a solver that symmetrises the matrix is off by >= 2.1 (weights 16/3 : 1 vs 1 : 1)
+
+
+def _oracle_nearsym(c, r, T, vals, vecs, k):
+    """rare-event chains whose asymmetry (crossing probabilities 2^-30 .. 2^-37) is below the absolute tolerances used
+    elsewhere: residuals are judged at the scale of the doubles, the stationary vector against the exact one"""
+    out = []
+    n = len(T)
+    pi = _exact_stationary(T)
+    what = "near-symmetric chain (np.allclose(T, T.T) is %s; smallest crossing %.2e)" % (
+        r.get("allclose_sym"), float(min(x for row in T for x in row if x > 0)))
+
+    def judge(v, name, key):
+        res = max(abs(sum(v[i] * T[i][j] for i in range(n)) - v[j]) for j in range(n))
+        if res > TIGHT:
+            out.append((key, "%s: %s is not stationary: max |v T - v| = %.3e" % (what, name, float(res))))
+        rel = max(abs(a - b) / b for a, b in zip(v, pi))
+        if rel > PI_REL:
+            out.append((key, "%s: %s = %s but the stationary distribution is %s (relative error %.2f)" % (
+                what, name, [round(float(x), 6) for x in v], [round(float(x), 6) for x in pi], float(rel))))
+    judge(vecs[0], "first left eigenvector", "eig-stationary")
+    if abs(vals[0] - 1) > TIGHT * 10:
+        out.append(("eig-leading-one", "%s: leading eigenvalue 1 %+.3e" % (what, float(vals[0] - 1))))
+    raw_re = sorted((_F(x[0]) for x in r["raw_vals"]), reverse=True)[:k]
+    if any(abs(a - b) > TIGHT * 10 for a, b in zip(vals, raw_re)):
+        out.append(("eig-values", "%s: returned values differ from the spectrum by %.3e" % (
+            what, max(float(abs(a - b)) for a, b in zip(vals, raw_re)))))
+    if all(_F(z[1]) == 0 for z in r["raw_vals"]):
+        for j, (lam, v) in enumerate(zip(vals, vecs)):
+            res = max(abs(sum(v[i] * T[i][q] for i in range(n)) - lam * v[q]) for q in range(n))
+            if res > TIGHT * 10 * max(abs(x) for x in v):
+                out.append(("eig-pairs", "%s: pair %d (value %.12f) is not a left eigenpair: residual %.3e" % (
+                    what, j, float(lam), float(res))))
+                break
+    e = r.get("eqp")
+    if isinstance(e, dict):
+        out.append(("eig-stationary", "%s: eq_probs raised %s" % (what, e["err"])))
+    elif e is not None:
+        judge([_F(x) for x in e], "eq_probs(T)", "eig-stationary")
+    return out
+
+
+def _oracle_hist(c, r):
+    out = []
+    names = []
+    for k, (st, rec) in enumerate(zip(c["steps"], r["steps"])):
+        names.append("fit(%d traj, %d states, trim=%s, lag=%d, sliding=%s, max_n_states=%s, %s)" % (
+            len(st["trjs"]), max(max(t) for t in st["trjs"]) + 1, st["trim"], st["lag"], st["sliding"], st["maxn"], st["builder"]))
+        rr = dict(rec)
+        rr.setdefault("attrs", [st["lag"], st["trim"], st["sliding"], st["maxn"]])
+        for key, msg in _oracle_fit(st, rr):
+            out.append(("history-" + key, "one MSM object, step %d of: %s%s -- %s" % (
+                k + 1, " -> ".join(names), "" if k == 0 else " (parameters %s changed through %s)" % (
+                    rec.get("changed"), st["how"]), msg)))
+        if "err" not in rec["est"] and rec.get("n_states") != len(rec["est"]["C"]):
+            out.append(("history-fit-shapes", "step %d: n_states_ = %s but %d states" % (k + 1, rec.get("n_states"), len(rec["est"]["C"]))))
     return out
 
 
@@ -757,7 +1112,7 @@ def oracle(c, r):
         return [("harness", "run_impl failed: %s %s" % (r["err"], r.get("msg")))]
     if c["kind"] == "bigeig":
         return _oracle_bigeig(c, r)
-    return {"fit": _oracle_fit, "eig": _oracle_eig, "ens": _oracle_ens, "imp": _oracle_imp}[c["kind"]](c, r)
+    return {"fit": _oracle_fit, "eig": _oracle_eig, "ens": _oracle_ens, "imp": _oracle_imp, "hist": _oracle_hist}[c["kind"]](c, r)
 
 
 # ----------------------------------------------------------------------------- Coq side
@@ -900,6 +1255,10 @@ def coq_check(c, r):
     if "err" in r and str(r["err"]).startswith("Unexpected"):
         return None
     k = c["kind"]
+    if k == "hist":
+        # the last two fits of the history against the model of a fresh estimator with the settings then in force
+        parts = [_coq_fit(st, rec) for st, rec in list(zip(c["steps"], r["steps"]))[-2:]]
+        return "(" + " && ".join("(%s)" % p for p in parts) + ")%bool"
     if k == "fit":
         return _coq_fit(c, r)
     if k == "eig":
@@ -920,6 +1279,10 @@ def coq_show(c):
     k = c["kind"]
     if k == "bigeig":
         return "tt"
+    if k == "hist":
+        st = c["steps"][-1]
+        return "option_map (fun m : fit_result => Trim.tr_keep (fst m)) (msm_fit (@nil (list Q)) %s %s)" % (
+            _cself(st), _ctrjs(st["trjs"]))
     if k == "fit":
         try:
             r = run_impl(c)
@@ -938,11 +1301,14 @@ def nontrivial(c, r):
     k = c["kind"]
     if k == "bigeig":
         return "err" not in r
+    if k == "hist":
+        good = [rec for rec in r.get("steps", []) if "err" not in rec["est"] and len(rec["est"]["C"]) >= 2]
+        return len(good) >= 2
     if k == "fit":
         e = r.get("est", {})
         return "err" not in e and len(e["C"]) >= 2 and sum(_F(x) for row in e["C"] for x in row) >= 3
     if k == "eig":
-        return len(c["M"]) >= 3 and "err" not in r.get("out", {"err": 1})
+        return len(c["M"] if c.get("M") is not None else c["Tq"]) >= 3 and "err" not in r.get("out", {"err": 1})
     if k == "ens":
         return "err" not in r and c["n_steps"] >= 3 and len(c["T"]) >= 2
     return "err" not in r and r["times"] is not None and any(x is not None for row in r["times"] for x in row)
@@ -952,7 +1318,39 @@ def tags(c, r):
     k = c["kind"]
     t = ["kind:" + k]
     if k == "bigeig":
-        return t + ["arpack-1000-states"]
+        return t + ["arpack-1000-states"] + (["arpack-repeated-calls"] if r.get("repeat") else []) + (
+            ["arpack-crowded-cut-tolerated"] if ("vals" in r and max(abs(a - b) for a, b in zip(r["vals"], r["dense"])) > 1e-7
+                                                and _sparse_dense_key(c, r) == ARPACK_KEY) else [])
+    if k == "hist":
+        steps, recs = c["steps"], r.get("steps", [])
+        t.append("hist-steps=%d" % len(steps))
+        for i in range(1, min(len(steps), len(recs))):
+            a, b, ra, rb = steps[i - 1], steps[i], recs[i - 1], recs[i]
+            t.append("hist-" + b["how"])
+            for f in ("trim", "lag", "sliding", "maxn"):
+                if a[f] != b[f]:
+                    t.append("hist-change-" + f)
+            if (a["builder"], a["eq"]) != (b["builder"], b["eq"]):
+                t.append("hist-change-method")
+            if a["trjs"] != b["trjs"]:
+                t.append("hist-change-data")
+                if max(max(x) for x in a["trjs"]) != max(max(x) for x in b["trjs"]):
+                    t.append("hist-change-state-count")
+            else:
+                t.append("hist-same-data")
+            if "err" in rb["est"]:
+                t.append("hist-step-rejects")
+            elif "err" not in ra["est"]:
+                ka = ra["est"]["keep"]
+                if a["trim"] and not b["trim"]:
+                    t.append("hist-trim-on-to-off")
+                    if ka != list(range(len(ka))) and len(rb["est"]["keep"]) == len(ka):
+                        t.append("hist-renumbered-then-untrimmed-same-size")
+                if not a["trim"] and b["trim"]:
+                    t.append("hist-trim-off-to-on")
+                if a["trim"] and b["trim"] and ka != rb["est"]["keep"]:
+                    t.append("hist-trim-mapping-changes")
+        return sorted(set(t))
     if k == "fit":
         t += ["builder:" + c["builder"], "by:" + c["by"], "trim-on" if c["trim"] else "trim-off",
               "sliding" if c["sliding"] else "strided", "maxn-given" if c["maxn"] is not None else "maxn-inferred",
@@ -974,6 +1372,8 @@ def tags(c, r):
             if "rt" in r and "err" not in r["rt"]:
                 t.append("roundtrip-run")
     elif k == "eig":
+        if c["flavour"] == "nearsym" and r.get("allclose_sym"):
+            t.append("eig-allclose-symmetric-but-not-symmetric")
         t += ["eig:" + c["flavour"], "eig-sparse" if c["sparse"] else "eig-dense",
               "n_eigs:" + ("none" if c["n_eigs"] is None else "lt2" if c["n_eigs"] < 2 else "given")]
         if any(_F(z[1]) != 0 for z in r.get("raw_vals", [])):
@@ -1000,7 +1400,12 @@ ESSENTIAL_TAGS = ["arpack-1000-states", "kind:fit", "kind:eig", "kind:ens", "kin
                   "lag=1", "lag=2", "lag=3", "lag=4", "fit-rejects", "trim-removes-states", "trim-renumbers",
                   "roundtrip-run", "eig-complex-pair", "eig-negative-real", "eig-sparse", "eig-dense", "n_eigs:lt2",
                   "ens-dyadic", "ens-general", "ens-obs", "ens-pops", "ens-rejects", "imp-trim", "imp-notrim",
-                  "imp-sliding", "imp-strided", "eq-off", "ctor:from_assignments"]
+                  "imp-sliding", "imp-strided", "eq-off", "ctor:from_assignments",
+                  "kind:hist", "hist-set_params", "hist-setattr", "hist-change-trim", "hist-change-lag", "hist-change-sliding",
+                  "hist-change-maxn", "hist-change-method", "hist-change-data", "hist-change-state-count", "hist-same-data",
+                  "hist-trim-on-to-off", "hist-trim-off-to-on", "hist-renumbered-then-untrimmed-same-size",
+                  "hist-trim-mapping-changes", "eig:nearsym", "eig-allclose-symmetric-but-not-symmetric",
+                  "arpack-repeated-calls"]
 
 
 def search(rng, tier):
